@@ -182,18 +182,41 @@ def main():
     tables = json.load(open(os.path.join(BUILD, "tables.json")))
     kf = [k for k in load_known() if k.get("property") == pid and not k.get("fixed")]
 
-    def one_pass(intensify):
+    def one_pass_seed(intensify, sd):
         diffs_all = []
         if driver_ok:
             for fam in spec["corr"]:
-                ops = corr.family_ops(fam, tables, seed, tier, intensify)
+                ops = corr.family_ops(fam, tables, sd, tier, intensify)
                 g, m, diffs = corr.compare(ops)
                 n_ops = sum(len(x) for x in ops) if ops and isinstance(ops[0], list) else len(ops)
-                stats["corr"][fam] = {"ops": n_ops, "disagreements": len(diffs)}
+                st = stats["corr"].setdefault(fam, {"ops": 0, "disagreements": 0})
+                st["ops"] += n_ops
+                st["disagreements"] += len(diffs)
                 for oid, f, x, y in diffs[:3] + [d for d in diffs[3:] if str(d[2]).startswith(("panic", "crash"))][:10]:
                     diffs_all.append((fam, f, x, y))
-        ores = oracles.run(pid, tables, seed, tier, intensify)
+        ores = oracles.run(pid, tables, sd, tier, intensify)
         return diffs_all, ores
+
+    def one_pass(intensify):
+        # the thorough tier explores under three seeds derived from VERIF_SEED; the quick tier under VERIF_SEED itself
+        stats["corr"].clear()
+        seeds = [seed, seed + 1013, seed + 2027] if tier == "thorough" else [seed]
+        diffs_all, merged = [], None
+        for sd in seeds:
+            d, o = one_pass_seed(intensify, sd)
+            diffs_all += d
+            if merged is None:
+                merged = o
+            else:
+                merged["violations"] = merged["violations"] + o["violations"]
+                for k in ("evaluations", "distinct_nontrivial"):
+                    merged["stats"][k] = merged["stats"].get(k, 0) + o["stats"].get(k, 0)
+                sm, so = merged["stats"].get("summary", {}), o["stats"].get("summary", {})
+                for k, v in so.items():
+                    if isinstance(v, (int, float)) and not isinstance(v, bool):
+                        sm[k] = sm.get(k, 0) + v
+        merged["stats"]["seeds"] = seeds
+        return diffs_all, merged
 
     changed = src_changed_files()
     if changed:
